@@ -158,6 +158,12 @@ def _transfer_variants(fn, bb, env, valuation, prog=None):
         env.pop(("V", d), None)
         a0 = t["args"][0] if t["args"] else None
         v0 = _nested_variant(fn, a0["pl"], env, valuation) if a0 is not None and a0.get("k") in ("copy", "move") else None
+        if v0 and (p.endswith("Try>::branch") or p.endswith("Try::branch")):
+            # `x?`: Ok / Some go on, Err / None leave
+            if v0[0] in ("Ok", "Some"):
+                env[("V", d)] = ("Continue",) + tuple(v0[1:])
+            elif v0[0] in ("Err", "None"):
+                env[("V", d)] = ("Break",)
         if v0 and p.startswith("core::option::Option::<T>::"):
             last = p.split("::")[-1]
             if last == "is_some":
@@ -188,7 +194,7 @@ def _join(a, b):
     return {k: v for k, v in a.items() if b.get(k) == v}
 
 
-def reach_under(fn, atom, variant=None, disabled=(), blocked=(), per_iteration=False, return_envs=False, valuation=None, prog=None):
+def reach_under(fn, atom, variant=None, disabled=(), blocked=(), per_iteration=False, return_envs=False, valuation=None, prog=None, start=None):
     """Set of blocks reachable from the entry under the assumptions (never entering a block in `blocked`).  With per_iteration the
     assumptions describe one iteration of a loop, earlier iterations being arbitrary: what is known about boolean locals is
     forgotten at every loop head."""
@@ -198,8 +204,8 @@ def reach_under(fn, atom, variant=None, disabled=(), blocked=(), per_iteration=F
     disabled = set(disabled)
     from . import patterns as pt
     dsw = {sw["bb"]: sw for sw in pt.discr_switches(fn, lambda e, rv: True)}
-    envs = {0: {}}
-    work = [0]
+    envs = {0: {}} if start is None else {b_: {} for b_ in start}
+    work = list(envs)
     seen_out = {}
     while work:
         bb = work.pop()
